@@ -1,6 +1,7 @@
 package keeper
 
 import (
+	"bytes"
 	"context"
 
 	codectypes "github.com/cosmos/cosmos-sdk/codec/types"
@@ -37,6 +38,26 @@ func (k Keeper) AddPendingValidator(ctx context.Context, newVal stakingtypes.Val
 	return k.PendingValidators.Set(ctx, vals)
 }
 
+// sameOperator reports whether two bech32 strings spell the same operator address
+// (bech32 allows an all upper case spelling of any address).
+func (k Keeper) sameOperator(a, b string) bool {
+	if a == b {
+		return true
+	}
+
+	aBz, err := k.GetValidatorAddressCodec().StringToBytes(a)
+	if err != nil {
+		return false
+	}
+
+	bBz, err := k.GetValidatorAddressCodec().StringToBytes(b)
+	if err != nil {
+		return false
+	}
+
+	return bytes.Equal(aBz, bBz)
+}
+
 func (k Keeper) RemovePendingValidator(ctx context.Context, valOpAddr string) error {
 	pending, err := k.GetPendingValidators(ctx)
 	if err != nil {
@@ -46,7 +67,7 @@ func (k Keeper) RemovePendingValidator(ctx context.Context, valOpAddr string) er
 	vals := pending.Validators
 
 	for i, val := range vals {
-		if val.OperatorAddress == valOpAddr {
+		if k.sameOperator(val.OperatorAddress, valOpAddr) {
 			vals = append(vals[:i], vals[i+1:]...)
 			pending.Validators = vals
 			break
@@ -73,7 +94,7 @@ func (k Keeper) GetPendingValidator(ctx context.Context, operatorAddr string) (p
 	}
 
 	for _, val := range pending.Validators {
-		if val.OperatorAddress == operatorAddr {
+		if k.sameOperator(val.OperatorAddress, operatorAddr) {
 			// required to unpack the pubKey properly
 			if err := val.UnpackInterfaces(k.cdc); err != nil {
 				return poa.Validator{}, err
@@ -92,5 +113,5 @@ func (k Keeper) IsValidatorPending(ctx context.Context, operatorAddr string) (bo
 		return false, err
 	}
 
-	return pending.OperatorAddress == operatorAddr, nil
+	return pending.OperatorAddress != "", nil
 }
